@@ -179,6 +179,24 @@ func (r *Result) WriteEvidence(dir string) error {
 	for k, v := range r.Extra {
 		cov[k] = v
 	}
+	if r.Assumptions == nil {
+		r.Assumptions = []string{}
+	}
+	if r.Decides == nil {
+		cov["decides"] = []string{}
+	}
+	if r.NotDecided == nil {
+		cov["not_decided"] = []string{}
+	}
+	if r.Known == nil {
+		cov["known_findings"] = []string{}
+	}
+	if r.Internal == nil {
+		cov["internal_failures"] = []string{}
+	}
+	if samples == nil {
+		cov["samples"] = []Obligation{}
+	}
 	ev := map[string]interface{}{
 		"property_id": r.Property,
 		"tier":        r.Tier,
